@@ -351,6 +351,21 @@ func init() {
 			}
 			return termFalse
 		},
+		// symDecimal(v int64) / symUDecimal(v uint64): base-10 rendering
+		"symDecimal": func(p *Path, fr *frame, args []value) value {
+			t := args[0].(*Term)
+			if t.IsConst() {
+				return strconv.FormatInt(t.SVal(), 10)
+			}
+			return p.formatIntSym(t, true)
+		},
+		"symUDecimal": func(p *Path, fr *frame, args []value) value {
+			t := args[0].(*Term)
+			if t.IsConst() {
+				return strconv.FormatUint(t.c, 10)
+			}
+			return p.formatIntSym(t, false)
+		},
 		// symStrEq(a, b): a == b as a single term
 		"symStrEq": func(p *Path, fr *frame, args []value) value { return strEq(args[0], args[1]) },
 	}
